@@ -206,7 +206,7 @@ def work(items):
 
 def run(prop, tier, vseed):
     t0 = time.time()
-    fam = PF.family(3, PF.FULL) if tier == "quick" else PF.family(3, PF.FULL) + PF.family(4, ["ab", "a b", "s2", "span2", "link", "tab", "spanws"])
+    fam = PF.family(3, PF.FULL_SP) if tier == "quick" else PF.family(3, PF.FULL_SP) + PF.family(4, ["ab", "a b", "s2", "span2", "link", "tab", "spanws", "sp"])
     fam = list(dict.fromkeys(fam))
     nproc = int(os.environ.get("VERIF_NPROC", "0")) or min(16, os.cpu_count() or 1)
     nev = 0
